@@ -1,119 +1,7 @@
-// counterexample for harness c07_into_verified_iff_spec (property C07) found by CBMC on ee02f25c5b3ee4cba9a5ba509b3c5ebf352b79c3
-// failed checks: [{"description": "assertion failed: want", "function": "config::verif_kani::c07_into_verified_iff_spec", "file": "config.rs", "line": "105"}]
-// native replay (test fails = reproduced): {"kani_concrete_playback_c07_into_verified_iff_spec_1659094140961114547": {"dev": true, "release": null}, "kani_concrete_playback_c07_into_verified_iff_spec_5685308760832477727": {"dev": false, "release": null}}
-// replay: /verif/check.py --replay /verif/replays/C07/c07_into_verified_iff_spec.rs
+// harness c07_into_verified_iff_spec (property C07) failed in the solver on 79f96efe2527a737c3734099f028874ccab69f11+dirty
+// failed checks: [{"description": "assertion failed: want", "function": "config::verif_kani::c07_into_verified_iff_spec", "file": "config.rs", "line": "107"}]
+// the harness uses code stubs, so the violation is confirmed by the native property-level oracle
+// test `c07_oracle_boundary_grid` in /verif/harness/native/config.rs (fails = reproduced): True
 //@replay-harness: c07_into_verified_iff_spec
-/// Test generated for harness `config::verif_kani::c07_into_verified_iff_spec` 
-///
-/// Check for `assertion`: "assertion failed: want"
-///
-/// # Warning
-///
-/// Concrete playback tests combined with stubs or contracts is highly
-/// experimental, and subject to change.
-///
-/// The original harness has stubs which are not applied to this test.
-/// This may cause a mismatch of non-deterministic values if the stub
-/// creates any non-deterministic value.
-/// The execution path may also differ, which can be used to refine the stub
-/// logic.
-
-#[test]
-fn kani_concrete_playback_c07_into_verified_iff_spec_1659094140961114547() {
-    let concrete_vals: Vec<Vec<u8>> = vec![
-        // 18446744069431427329ul
-        vec![1, 1, 1, 1, 255, 255, 255, 255],
-        // 32767ul
-        vec![255, 127, 0, 0, 0, 0, 0, 0],
-        // 0
-        vec![0],
-        // 0
-        vec![0],
-        // 0
-        vec![0],
-        // 0
-        vec![0],
-        // 1
-        vec![1],
-        // 1
-        vec![1],
-        // 0
-        vec![0],
-        // 4611686014132420608ul
-        vec![0, 0, 0, 0, 255, 255, 255, 63],
-        // 0
-        vec![0],
-        // 3ul
-        vec![3, 0, 0, 0, 0, 0, 0, 0],
-        // 15ul
-        vec![15, 0, 0, 0, 0, 0, 0, 0],
-        // 1ul
-        vec![1, 0, 0, 0, 0, 0, 0, 0],
-        // 0
-        vec![0],
-        // 0ul
-        vec![0, 0, 0, 0, 0, 0, 0, 0],
-        // 1
-        vec![1],
-        // 14ul
-        vec![14, 0, 0, 0, 0, 0, 0, 0],
-    ];
-    kani::concrete_playback_run(concrete_vals, c07_into_verified_iff_spec);
-}
-
-/// Test generated for harness `config::verif_kani::c07_into_verified_iff_spec` 
-///
-/// Check for `cover`: "cover condition: true"
-///
-/// # Warning
-///
-/// Concrete playback tests combined with stubs or contracts is highly
-/// experimental, and subject to change.
-///
-/// The original harness has stubs which are not applied to this test.
-/// This may cause a mismatch of non-deterministic values if the stub
-/// creates any non-deterministic value.
-/// The execution path may also differ, which can be used to refine the stub
-/// logic.
-
-#[test]
-fn kani_concrete_playback_c07_into_verified_iff_spec_5685308760832477727() {
-    let concrete_vals: Vec<Vec<u8>> = vec![
-        // 18446744073709551615ul
-        vec![255, 255, 255, 255, 255, 255, 255, 255],
-        // 32767ul
-        vec![255, 127, 0, 0, 0, 0, 0, 0],
-        // 1
-        vec![1],
-        // 1
-        vec![1],
-        // 1
-        vec![1],
-        // 1
-        vec![1],
-        // 1
-        vec![1],
-        // 1
-        vec![1],
-        // 1
-        vec![1],
-        // 3ul
-        vec![3, 0, 0, 0, 0, 0, 0, 0],
-        // 1
-        vec![1],
-        // 15ul
-        vec![15, 0, 0, 0, 0, 0, 0, 0],
-        // 15ul
-        vec![15, 0, 0, 0, 0, 0, 0, 0],
-        // 0
-        vec![0],
-        // 0ul
-        vec![0, 0, 0, 0, 0, 0, 0, 0],
-        // 1
-        vec![1],
-        // 7ul
-        vec![7, 0, 0, 0, 0, 0, 0, 0],
-    ];
-    kani::concrete_playback_run(concrete_vals, c07_into_verified_iff_spec);
-}
-
+//@replay-oracle: c07_oracle_boundary_grid
+// panicked at /var/tmp/flacenc-verif-c07-o1wam35x/shadow/verif_harness/native/config.rs:88:5: | verify() disagrees with the documented ranges for: ["alpha=NaN"]
